@@ -2,5 +2,6 @@ import Neutrino.Props.C07
 import Neutrino.Props.C08
 import Neutrino.Props.C11
 import Neutrino.Props.C12
+import Neutrino.Props.C13
 import Neutrino.Props.C15
 import Neutrino.Props.C16
